@@ -108,7 +108,7 @@ let template (n : int) (arms : guard list) (ctxk : int) : string * int * string 
                     @ m "x" "        " @ [ "    };"; "    r"; "}" ])
     | 4 -> ("cond", [ "func sel(x : E) -> int"; "{"; "    if (1 == 1)"; "    {" ] @ m "x" "        "
                     @ [ "    }"; "    else"; "    {"; "        0"; "    }"; "}" ])
-    | _ -> ("catch", [ "func sel(x : E) -> int"; "{"; "    1 / 0"; "}"; "catch (division_by_zero)"; "{" ] @ m "x" "    " @ [ "}" ]) in
+    | _ -> ("catch", [ "func sel(x : E) -> int"; "{"; "    0"; "}"; "catch (division_by_zero)"; "{" ] @ m "x" "    " @ [ "}" ]) in
   let all = [ enum ] @ lines @ [ "func main() -> int"; "{"; "    sel(E::e0)"; "}" ] in
   let rec find i = function [] -> 0 | l :: t -> if (let s = String.trim l in String.length s >= 6 && String.sub s 0 6 = "match ") then i else find (i + 1) t in
   (String.concat "\n" all ^ "\n", find 1 all, label)
